@@ -653,7 +653,7 @@ def d8_wiring_and_dispatch(chk, repo):
                 ct = s.ctx.args_of(ct)[0]
             c = decode_call(s.ctx, ct)
             if c and c[0] == "isinstance" and is_sym(s.ctx, c[1][1], "numbers.Real") and c[1][0].single_atom() is not None \
-                    and s.ctx.head_of(c[1][0])[0] in ("phi", "unpack", "sym"):
+                    and s.ctx.head_of(c[1][0])[0] in ("phi", "unpack", "sub", "sym"):
                 rng = (st, c[1][0])
     okr = False
     if rng:
